@@ -194,15 +194,9 @@ class cpu_time_limit:
 
 
 def _limited_call(fn):
-    """fn() under the 10 s wall-clock limit; when that fires (a loaded machine can stall a 0.1 s call for longer)
-    the call is repeated once under the same limit in CPU time, and only that outcome counts."""
-    from common import time_limit, Hang
-    try:
-        with time_limit(CALL_LIMIT_S):
-            return fn()
-    except Hang:
-        pass
-    with cpu_time_limit(CALL_LIMIT_S):
+    """fn() under the per-call limit (CPU time of this process: common.time_limit)."""
+    from common import time_limit
+    with time_limit(CALL_LIMIT_S):
         return fn()
 
 
